@@ -70,6 +70,11 @@ func fnInfo(ctx *cmdContext, args map[string]any) (output respValue, err error) 
 
 	uptime := time.Since(started)
 
+	// the counters are written by every connection under infoMu
+	infoMu.Lock()
+	info := info
+	infoMu.Unlock()
+
 	data := map[string]any{}
 	data["run_id"] = info.run_id
 	data["tcp_port"] = ctx.cd.port
